@@ -123,7 +123,8 @@ fn main() {
             let prof = gen::profile(arg(&args, "--profile").unwrap_or("C01")).expect("profile");
             let seed: u64 = arg(&args, "--seed").and_then(|s| s.parse().ok()).unwrap_or(1);
             let idx: u64 = arg(&args, "--index").and_then(|s| s.parse().ok()).unwrap_or(0);
-            let p = gen::generate(prof, mix(seed, idx), CFG_A);
+            let rs: u64 = arg(&args, "--run-seed").and_then(|s| s.parse().ok()).unwrap_or_else(|| mix(seed, idx));
+            let p = gen::generate(prof, rs, CFG_A);
             print!("{}", p.to_text());
         }
         "exec" => {
@@ -150,6 +151,19 @@ fn main() {
             let path = &args[2];
             let out = arg(&args, "--out").unwrap_or("min.replay");
             std::process::exit(minimise::minimise(path, out));
+        }
+        "index-of" => {
+            let seed: u64 = arg(&args, "--seed").and_then(|s| s.parse().ok()).unwrap_or(1);
+            let from: u64 = arg(&args, "--from").and_then(|s| s.parse().ok()).unwrap_or(0);
+            let to: u64 = arg(&args, "--to").and_then(|s| s.parse().ok()).unwrap_or(0);
+            let rs: u64 = arg(&args, "--run-seed").and_then(|s| s.parse().ok()).unwrap_or(0);
+            for i in from..to {
+                if mix(seed, i) == rs {
+                    println!("{}", i);
+                    return;
+                }
+            }
+            println!("none");
         }
         "run" => cmd_run(&args),
         _ => {
